@@ -820,6 +820,8 @@ impl<T: TypeConfig> RaftRoleState for LeaderState<T> {
         }
         if noop_timed_out {
             warn!("LeaderNoop commit timed out — stepping down");
+            // Revoke lease immediately — window-period fix (see VoteRequest branch).
+            self.shared_state.lease.revoke();
             let _ = internal_event_tx.send(InternalEvent::BecomeFollower(None));
         }
 
@@ -1195,6 +1197,8 @@ impl<T: TypeConfig> RaftRoleState for LeaderState<T> {
                         my_id
                     );
                     //TODO: if there is a bug?  self.update_current_term(vote_request.term);
+                    // Revoke lease immediately — window-period fix (see VoteRequest branch).
+                    self.shared_state.lease.revoke();
                     self.send_become_follower_event(
                         Some(cluste_conf_change_request.id),
                         &internal_event_tx,
@@ -2073,6 +2077,8 @@ impl<T: TypeConfig> RaftRoleState for LeaderState<T> {
             "[Leader-{}] Removed from cluster membership, stepping down to Follower",
             self.node_id()
         );
+        // Revoke lease immediately — window-period fix (see VoteRequest branch).
+        self.shared_state.lease.revoke();
         internal_event_tx.send(InternalEvent::BecomeFollower(None)).map_err(|e| {
             error!(
                 "[Leader-{}] Failed to send BecomeFollower after self-removal: {:?}",
